@@ -80,7 +80,14 @@ type secErr struct{ secret string }
 func (e secErr) Error() string { return "err " + e.secret }
 
 func secretsExtra(s string, n int, ps string, pn int) []interface{} {
+	// an unsafe string that happens to render as the redaction mark itself in one instantiation (and as another
+	// two-byte character in the other): position 0 of this list, see the cases built in secretsDrive
+	cross := "\u00f7"
+	if s == secretPairs[0].s {
+		cross = "\u00d7"
+	}
 	return []interface{}{
+		cross,
 		secSM{s}, &secSM{s}, []secSM{{s}}, map[string]secSM{"k": {s}}, secSF{s, n}, []interface{}{secSF{s, n}, secSM{s}},
 		secSV{ps}, []interface{}{secSV{ps}, s}, struct {
 			A secSV
@@ -159,6 +166,11 @@ func secretsDrive(args []string) {
 			cases = append(cases, secretsCase{"secrets", "n.\u00ba%" + v + "\u20ba", []int{i}, 0}, secretsCase{"secrets", "\u00b9%" + v + "\u203b", []int{i}, 0})
 		}
 		cases = append(cases, secretsCase{"secrets", "", []int{i}, 1}, secretsCase{"secrets", "", []int{i, i}, 2})
+	}
+	// the unsafe operand that looks like the redaction mark, first, followed by every other value
+	crossIdx := len(universeOf("s", 1, "p", 2))
+	for i := 0; i < usize; i++ {
+		cases = append(cases, secretsCase{"secrets", "op=%v user=%v", []int{crossIdx, i}, 0}, secretsCase{"secrets", "", []int{crossIdx, i, crossIdx}, 1})
 	}
 	r := rand.New(rand.NewSource(lib.Seed()))
 	for i := 0; i < *pairs; i++ {
